@@ -16,7 +16,7 @@
                         the bound B only excludes `pos + n` overflowing usize inside SliceReader::check_eor. *)
 From VBase Require Import MachInt.
 From VModel Require Import ReadAdapter.
-From VProofs Require Import ReadAdapterSim ReadAdapterInv ReadAdapterRefine.
+From VProofs Require Import ReadAdapterSim ReadAdapterInv ReadAdapterRefine ReadAdapterCons.
 Local Open Scope nat_scope.
 
 (* Refinement, all 15 operations (read_u8 peek_u8 read_bool read_u16/32/64/128 read_usize read_slice read_array read_vec
@@ -71,6 +71,26 @@ Theorem C13_queries_do_not_consume : forall s n, wf s ->
   unread (snd (a_eor n s)) = unread s /\ unread (snd (a_more s)) = unread s.
 Proof. exact unread_conserved_by_queries. Qed.
 Print Assumptions C13_queries_do_not_consume.
+
+(* Each byte is consumed exactly once, for EVERY source (also with empty reads before EOF): a required method removes from
+   [unread] exactly the bytes it returns ([delivered]), in order, and nothing when it fails or only looks. *)
+Theorem C13_bytes_conserved_any_source : forall grow dbg,
+  conserves a_u8 (fun b => [b]) /\ conserves a_peek (fun _ => []) /\
+  (forall n, conserves (a_slice grow n) (fun l => l)) /\ (forall n, conserves (a_array grow dbg n) (fun l => l)) /\
+  (forall n s, wf s -> unread (snd (a_eor n s)) = unread s) /\ (forall s, wf s -> unread (snd (a_more s)) = unread s).
+Proof. exact required_methods_conserve. Qed.
+Print Assumptions C13_bytes_conserved_any_source.
+
+(* For EVERY source: whenever a required method of the adapter succeeds, its value and the bytes left are those of the list
+   semantics (= SliceReader) on the unread bytes.  Empty reads before EOF can only cause failures (UnexpectedEOF, nothing
+   consumed - previous theorem), never a wrong value or a skipped / repeated byte. *)
+Theorem C13_ok_results_exact_any_source : forall grow dbg s, wf s ->
+  (forall b, fst (a_u8 s) = Ok b -> (Ok b, unread (snd (a_u8 s))) = sp_u8 (unread s)) /\
+  (forall b, fst (a_peek s) = Ok b -> (Ok b, unread (snd (a_peek s))) = sp_peek (unread s)) /\
+  (forall n l, fst (a_slice grow n s) = Ok l -> (Ok l, unread (snd (a_slice grow n s))) = sp_take n (unread s)) /\
+  (forall n l, fst (a_array grow dbg n s) = Ok l -> (Ok l, unread (snd (a_array grow dbg n s))) = sp_take n (unread s)).
+Proof. exact ok_results_exact_any_source. Qed.
+Print Assumptions C13_ok_results_exact_any_source.
 
 (* ---- non-vacuity and necessity of the side conditions ---- *)
 Example C13_hypotheses_satisfiable : sticky ex_chunks /\ 16 <= 16 /\ Forall (fun o => op_arg o <= 16) ex_ops /\
